@@ -477,4 +477,16 @@ impl WireRt {
         });
         fence();
     }
+    /// Move the (paused) tokio clock: timers of the service fire, then a few fenced rounds.
+    pub fn advance(&mut self, d: std::time::Duration) {
+        self.rt.block_on(async {
+            fence();
+            tokio::time::advance(d).await;
+            for _ in 0..4 {
+                fence();
+                tokio::task::yield_now().await;
+            }
+        });
+        fence();
+    }
 }
